@@ -249,7 +249,18 @@ fn date_family() -> Vec<String> {
 }
 
 pub fn run(run: &mut Run) {
-    let max_len: usize = if run.tier.thorough() { 6 } else { 5 };
+    let thorough = run.tier.thorough();
+    // thorough: length 6 in the three locales with distinct separator sets (en: `.` `,`; de: `,` `.`; fr: `,` and a
+    // group separator that cannot be typed from the alphabet), length 5 in en-GB, es, it (same separators as en / de,
+    // they differ in currency symbol and date order only)
+    let len_of = move |loc: &str| -> usize {
+        if thorough && (loc == "en" || loc == "de" || loc == "fr") {
+            6
+        } else {
+            5
+        }
+    };
+    let max_len: usize = if thorough { 6 } else { 5 };
     let k = ALPHABET.len();
     let dates = date_family();
     // units: (locale, two-symbol prefix) for lengths 2..=L, (locale) for length 1 and the date family
@@ -264,7 +275,7 @@ pub fn run(run: &mut Run) {
         let mut tally = Tally::default();
         if w < k * k {
             let prefix = [w / k, w % k];
-            for len in 2..=max_len {
+            for len in 2..=len_of(loc) {
                 for_each_with_prefix(&ALPHABET, &prefix, len, &mut |s| {
                     let (v, t, d) = check_one(&rec, &mut ty, s);
                     tally.take(&v, &t, d);
@@ -307,7 +318,7 @@ pub fn run(run: &mut Run) {
             Err(e) => run.machinery_errors.push(format!("unit panicked: {}", e)),
         }
     }
-    let expected = (crate::fnum::count_strings(k, max_len) + dates.len() as u64) * LOCALES.len() as u64;
+    let expected: u64 = LOCALES.iter().map(|l| crate::fnum::count_strings(k, len_of(l)) + dates.len() as u64).sum();
     if total.n != expected {
         run.machinery_errors.push(format!("enumerated {} inputs, expected {}", total.n, expected));
     }
@@ -321,7 +332,8 @@ pub fn run(run: &mut Run) {
     run.bound = json!({
         "alphabet": ALPHABET.iter().collect::<String>(),
         "max_length": max_len,
-        "strings_per_locale": crate::fnum::count_strings(k, max_len),
+        "max_length_per_locale": LOCALES.iter().map(|l| (l.to_string(), json!(len_of(l)))).collect::<serde_json::Map<String, Value>>(),
+        "strings_per_locale_at_max_length": crate::fnum::count_strings(k, max_len),
         "date_family_per_locale": dates.len(),
         "date_parts": DATE_PARTS,
         "locales": LOCALES,
